@@ -128,20 +128,35 @@ class Impl:
             self.cleared = True
             self.pending = []
             self.pending_len = 0
+            self.pending_bytes = b''
             orig_clear()
         self.conn.clear_outbound_data_buffer = clear
 
     # ---- output ------------------------------------------------------------------------------
     def _absorb_output(self):
         buf = bytes(self.conn._data_to_send)
+        prev = getattr(self, 'pending_bytes', b'')
+        if buf[:len(prev)] != prev:
+            # the output buffer is expected to be append-only between drains: it was rewritten
+            self.pending = [[97, len(prev), len(buf)]]
+            self.pending_bytes = buf
+            self.pending_len = len(buf)
+            return
         new = buf[self.pending_len:]
         self.pending_len = len(buf)
+        self.pending_bytes = buf
         if not new:
             return
         if self.cfg['client'] and not self.preface_seen and new.startswith(wire.PREFACE):
             self.preface_seen = True
             new = new[len(wire.PREFACE):]
-        for f in wire.parse_all(new):
+        try:
+            frames = wire.parse_all(new)
+        except wire.WireError as e:
+            # what was appended does not parse as HTTP/2 frames
+            self.pending.append([96, tbytes(str(e)[:40])])
+            return
+        for f in frames:
             self.pending.append(self._tframe(f))
 
     def _tframe(self, f):
@@ -435,6 +450,7 @@ class Impl:
                 c.data_to_send()
                 self.pending = []
                 self.pending_len = 0
+                self.pending_bytes = b''
             elif k == 'Receive':
                 data = b''
                 if not self.cfg['client'] and not self.sent_preface:
